@@ -211,7 +211,7 @@ def main():
         for sid in USE:
             sch = FAM[sid]
             alpha = S.alphabet_for(sch)
-            for flags, path in ((0, False), (CM, True)):
+            for flags, path in ((0, False), (CM, True)) + (((CM | CFGF['IGNORE_UNKNOWN'], False),) if N <= 5 else ()):      # skipped items own temporaries too
                 inner, frontier = trace.viable_prefixes(sch, flags, alpha, 2)
                 NN = N + (1000 if N <= 5 else 0)
                 shards.append((sid, flags, path, NN - N, inner, dl))
